@@ -26,9 +26,12 @@ TEXT = {
  'C19': ("checks flag in the model: write_bits panics iff checks and dirty; library-issued writes are clean; (partial: builds are configurations) the scripts are replayed on harness builds with checks / no_copy_impls x release/dev profiles", "7/C19"),
  'C20': ("length functions monotone; Kraft via Mathlib's Kraft-McMillan; FindChangePoints model: sound, complete up to 2^63, terminating; differential on library length functions and synthetic step functions under a watchdog", "7/C20"),
 }
-NOTE = ("Trusted: Lean 4.33 kernel (axioms propext, Classical.choice, Quot.sound only, audited by #print axioms each run); tools/translate.py for the generated "
-        "tables/match lists; the correspondence check (harness + compiled Lean driver + generators) ties the hand-written model to the code and is bounded "
-        "by what the generators reach; rustc/std/common_traits are trusted.")
+NOTE = ("Trusted: Lean 4.33 kernel (axioms propext, Classical.choice, Quot.sound only, audited by #print axioms on every listed theorem each run); the "
+        "translators tools/translate*.py, which regenerate lean/Dsi/Gen from the Rust source on every run (tables, match-arm lists, and statement-by-statement "
+        "method bodies; they fail closed) — the *Gen theorems prove the regenerated definitions equal to the hand model and the Headline* theorems restate "
+        "the property over the regenerated definitions only; the correspondence check (harness + compiled Lean driver + generators) additionally runs model "
+        "and implementation on the same scenarios and is bounded by what the generators reach; rustc/std/common_traits, std::io objects, Mutex are trusted "
+        "(DESIGN.md §9, coverage table §4.1-bis).")
 
 def main():
     import props
@@ -46,7 +49,7 @@ def main():
             engine='lean4-proof+correspondence',
             level_claimed=dict(category='proof', text=text, design_ref='DESIGN.md §' + ref),
             level_note=NOTE,
-            technique='Lean 4 theorems over an executable model (refinement / round-trip / kernel-evaluated generated tables) + model-vs-implementation correspondence check',
+            technique='Lean 4 theorems over an executable model regenerated from the source by a translator (equality to the hand model, refinement / round-trip / kernel-evaluated tables) + model-vs-implementation correspondence check',
         ))
     na = [dict(property_id=p, reason='not claimed in this revision: the machinery for it is still being built (see DESIGN.md §8)') for p in allp if p not in claimed]
     man = dict(
